@@ -82,9 +82,14 @@ def oracle_pool(group, extra=()):
         pool = ed_pool()
     else:
         from spake2 import groups
-        g = getattr(groups, group)
-        d = PC.INT_GROUPS[group]
-        rg = R.RefIntGroup(d["p"], d["q"], d["g"])
+        from checks import common as C
+        if hasattr(groups, group):
+            g = getattr(groups, group)
+            d = PC.INT_GROUPS[group]
+            rg = R.RefIntGroup(d["p"], d["q"], d["g"])
+        else:
+            g = C.toy_group(group)
+            rg = R.RefIntGroup(*C.TOYS[group])
         pool = int_pool(rg)
     for b in list(extra) + pool:
         want = rg.decode(b)
